@@ -41,6 +41,16 @@ def relabelOne (m : LBqm R) (old new : Label) : LBqm R :=
     let adj := (nold.pop old).foldl (relabelMove old new) adj
     { m with adj := adj.pop old }
 
+/-- `pyBQM.set_quadratic(u, v, bias)` on the data itself: checked first, `add_variable(u)`, `add_variable(v)`, then
+    `_adj[u][v] = _adj[v][u] = bias` -/
+def setQuadratic [Add R] [Zero R] (m : LBqm R) (u v : Label) (b : R) : Except Err (LBqm R) :=
+  if u = v then .error .value else
+  let d1 := (m.addVariable u).addVariable v
+  let nu := ((d1.adj.get? u).getD []).set v b
+  let adj := d1.adj.set u nu
+  let adj := adj.set v (((adj.get? v).getD []).set u b)
+  .ok { d1 with adj }
+
 /-- insertion order of `_adj` and of every neighbourhood -/
 def rawOrder (m : LBqm R) : List (Label × List Label) := m.adj.map fun p => (p.1, p.2.map (·.1))
 
@@ -51,6 +61,7 @@ inductive HOp (R : Type) where
   | addLinear (v : Label) (b : R)
   | setLinear (v : Label) (b : R)
   | addQuadratic (u v : Label) (b : R)
+  | setQuadratic (u v : Label) (b : R)
   | removeInteraction (u v : Label)
   | removeVariable (v : Label)
   | relabel (old new : Label)
@@ -63,6 +74,7 @@ def hstep (m : LBqm Rat) : HOp Rat → LBqm Rat
   | .addLinear v b => m.addLinear v b
   | .setLinear v b => m.setLinear v b
   | .addQuadratic u v b => match m.addQuadratic u v b with | .ok m' => m' | .error _ => m
+  | .setQuadratic u v b => match m.setQuadratic u v b with | .ok m' => m' | .error _ => m
   | .removeInteraction u v => match m.removeInteraction u v with | .ok m' => m' | .error _ => m
   | .removeVariable v => match m.removeVariable v with | .ok m' => m' | .error _ => m
   | .relabel old new => if m.adj.contains new then m else m.relabelOne old new
@@ -83,11 +95,13 @@ inductive VOp (R : Type) where
   | removeInteraction (u v : Label)
   | removeVariable (v : Label)
   | setOffset (b : R)
+  | baseSetQuadratic (u v : Label) (b : R)
   | relabel (old new : Label)
   | changeVartype (vt : VT)
 
 open Generated.Vartype in
-/-- one call through an object of vartype `view`; `relabel_variables` and `change_vartype` act on the data -/
+/-- one call through an object of vartype `view`; `baseSetQuadratic` (the model's own `set_quadratic`, which unlike the
+    view's is the data method), `relabel_variables` and `change_vartype` act on the data -/
 def vstep (m : LBqm Rat) (c : VT × VOp Rat) : LBqm Rat :=
   let T := viewTables
   match c.2 with
@@ -99,6 +113,7 @@ def vstep (m : LBqm Rat) (c : VT × VOp Rat) : LBqm Rat :=
   | .removeInteraction u v => (View.removeInteraction T c.1 m u v).1
   | .removeVariable v => (View.removeVariable T c.1 m v).1
   | .setOffset b => match View.setOffset T c.1 m b with | .ok m' => m' | .error _ => m
+  | .baseSetQuadratic u v b => m.hstep (.setQuadratic u v b)
   | .relabel old new => m.hstep (.relabel old new)
   | .changeVartype vt => m.hstep (.changeVartype vt)
 
